@@ -120,6 +120,10 @@ def row_role(texts: list[str]) -> str | None:
         t = texts[0]
         if TAG_GRP.fullmatch(t):
             return "heading"
+        if t.strip() == "":
+            # a full-width row without text: the heading of a page_by group whose value is blank
+            # (data rows always carry the key tag, footnote/source rows their own tag)
+            return "heading"
         if t.startswith("FN"):
             return "footnote_row"
         if t.startswith("SR"):
